@@ -312,7 +312,8 @@ def move_next_char(text: str | bytes, start_offs: int, end_offs: int) -> int:
         # same character boundaries as decode_one (an invalid byte is a character of its own)
         return min(decode_one(text, start_offs)[1], end_offs)
     if _byte_encoding == "wide" and within_double_byte(text, start_offs, start_offs) == 1:
-        return start_offs + 2
+        # a lead byte that is the last byte of the range has no second half
+        return min(start_offs + 2, end_offs)
     return start_offs + 1
 
 
